@@ -1,4 +1,5 @@
 #include <dirent.h>
+#include <malloc.h>
 #include <errno.h>
 #include <fcntl.h>
 #include <sched.h>
@@ -55,6 +56,11 @@ static void olock(void) { while (__atomic_exchange_n(&out_lock, 1, __ATOMIC_ACQU
 static void ounlock(void) { __atomic_store_n(&out_lock, 0, __ATOMIC_RELEASE); }
 
 void vh_init(const char *result_path) {
+  /* heap growth/shrink and munmap cost TLB shootdowns, which are very expensive in this VM when many
+     monitor processes run in parallel: keep freed memory in the process */
+  mallopt(M_MMAP_THRESHOLD, 64 << 20);
+  mallopt(M_TRIM_THRESHOLD, 512 << 20);
+  mallopt(M_TOP_PAD, 16 << 20);
   if (result_path != NULL) {
     out = fopen(result_path, "w");
     if (out == NULL) { perror(result_path); exit(2); }
